@@ -63,6 +63,8 @@ C = dict(
         # ChannelMapping_AsBuilt.cfg / _AsBuilt2.cfg (TLC reports the violations that the directed plans replay)
         dict(module="ChannelMapping", cfg="ChannelMapping_MCq.cfg", tiers=["quick"], workers=8),
         dict(module="ChannelMapping", cfg="ChannelMapping_MC.cfg", tiers=["thorough"], workers=8, timeout=1500),
+        # with collection starts that fail on a later shard after the pair's critical section ran (OfferFail)
+        dict(module="ChannelMapping", cfg="ChannelMapping_MCf.cfg", workers=8),
     ],
     # plans are generated from the design AS BUILT (all deviation switches FALSE): they contain the schedules
     # on which the current code leaves the contract
@@ -74,6 +76,11 @@ C = dict(
         src("cover7", "ChannelMapping_Cover7.cfg", ["quick", "thorough"], cap={"quick": 3000}),
         src("cover8", "ChannelMapping_Cover8.cfg", ["quick", "thorough"], cap={"quick": 2500}),
         src("cover9", "ChannelMapping_Cover9.cfg", ["thorough"], cap={"thorough": 40000}),
+        # histories with failing collection starts (real manager only)
+        src("fail4", "ChannelMapping_PlanF4.cfg", ["quick", "thorough"], cap={"quick": 700, "thorough": 6000}),
+        src("fail5", "ChannelMapping_PlanF.cfg", ["thorough"], cap={"thorough": 12000}),
+        dict(name="simfail", module="ChannelMapping", cfg="ChannelMapping_PlanSimF.cfg", simulate={"quick": 20, "thorough": 300},
+             depth=16, cap={"quick": 200, "thorough": 4000}),
         dict(name="sim", module="ChannelMapping", cfg="ChannelMapping_PlanSim.cfg", simulate={"quick": 20, "thorough": 300},
              depth=16, cap={"quick": 400, "thorough": 6000}),
     ],
@@ -96,6 +103,9 @@ C = dict(
         "sentence lets a channel of the smaller side serve ceil(larger/smaller) partners",
         "a key whose handler waits for a forwarded channel is not yet assigned; that is accepted only if the offered partner "
         "was full when the wait began.  Waiting for ever (no forward ever arrives) is not judged",
+        "offerfail = StartReadCollection of a two-shard collection whose second shard's stream cannot be opened (fake MQ refuses the "
+        "consumer): the first shard's pair goes through startReadChannel, then the start is undone; the assignment made for the "
+        "pair must stay (Stable) and later offers are judged as usual",
         "channel names: distinct name spaces (s1.., t1..) and identical names on both sides (ch1..)",
         "TLC exhaustiveness holds for the constants in the cfg files only (counts 1..4 x 1..4)",
     ],
@@ -108,6 +118,12 @@ def expand(fp_known):
     def f(plans, tier):
         out = []
         for i, p in enumerate(plans):
+            fails = any(st.get("op") == "offerfail" for st in p.get("steps", []))
+            if p.get("src") in ("fail4", "fail5", "simfail") and not fails:
+                continue
+            if fails:     # the transcription driver knows nothing about StartReadCollection's failure path
+                out.append(dict(p, plan="real-" + str(p["plan"]), driver="chanmgr"))
+                continue
             if fp_known and (tier == "thorough" or p.get("src") == "directed" or i % 4 == 0):
                 out.append(dict(p, driver="chanmap"))
             if tier == "thorough" or p.get("src") == "directed" or i % 2 == 1:
